@@ -19,8 +19,13 @@ use std::str::FromStr;
 /// optional pins: the shapes that need file / rank / both hints.
 pub fn gen_san_position(cur: &mut Cursor) -> (RefPos, &'static str) {
     let sel = cur.below(10);
-    if sel < 4 {
+    if sel < 3 {
         return gen_position(cur);
+    }
+    if sel == 3 {
+        // castling and "only reply is en passant" shapes matter for O-O texts and for +/# marks
+        let which = if cur.bool() { 4 } else { 12 };
+        return gen_position_from(cur, which);
     }
     let mut p = RefPos::empty();
     let us = Col::W;
@@ -205,6 +210,12 @@ pub fn check_format(b: &Board, r: &RefPos, stats: &mut Stats) -> CheckResult {
         if text.ends_with('+') {
             stats.label("check_mark");
             interesting = true;
+            if m.kind == Kind::Double {
+                let n = r.apply(m);
+                if n.legal().iter().all(|x| x.kind == Kind::Ep) {
+                    stats.label("check_with_only_ep_replies");
+                }
+            }
         }
         if text.ends_with('#') {
             stats.label("mate_mark");
@@ -452,6 +463,10 @@ fn gen_text_case(cur: &mut Cursor) -> Value {
                     format!("{}{}", s[cur.below(s.len())].uci(), cur.pick(&["", "", "+", "#"]))
                 }
             }
+            7 if cur.bool() => {
+                // castling spellings, whether or not castling is possible
+                format!("{}{}", cur.pick(&["O-O", "O-O-O", "0-0", "0-0-0", "O-O", "O-O-O"]), cur.pick(&["", "", "+", "#"]))
+            }
             _ => {
                 // short pawn captures and other terse forms
                 let f1 = (b'a' + cur.below(8) as u8) as char;
@@ -483,6 +498,11 @@ fn text_case(case: &Value, stats: &mut Stats) -> CheckResult {
             }
             if let SanDesc::PawnShort { .. } = d {
                 stats.label("short_capture_text");
+            }
+            if matches!(d, SanDesc::CastleK | SanDesc::CastleQ) {
+                stats.label("castling_text");
+                let semi_only = r.pseudo_legal().iter().any(|m| agrees(&d, m, &r)) && !l.iter().any(|m| agrees(&d, m, &r));
+                stats.label_if(semi_only, "castling_text_refused_by_position");
             }
             stats.add("texts_checked", 1);
         }
@@ -581,7 +601,7 @@ pub fn property() -> Property {
                 driver: Driver::Generated { gen: gen_san_pos_case, genome_len: 224, quick: 200_000, thorough: 4_000_000 },
                 check: format_case,
                 configs: Configs::ReleaseOnly,
-                required: &["file_hint", "rank_hint", "both_hints", "pinned_candidate_excluded", "check_mark", "mate_mark", "promotion", "en_passant", "castling"],
+                required: &["file_hint", "rank_hint", "both_hints", "pinned_candidate_excluded", "check_mark", "mate_mark", "promotion", "en_passant", "castling", "check_with_only_ep_replies"],
                 regressions: &[
                     r#"{"fen":"8/8/8/K2Pp2r/8/8/8/7k w - e6 0 1","src":"regression_D1"}"#,
                 ],
@@ -592,7 +612,7 @@ pub fn property() -> Property {
                 driver: Driver::Generated { gen: gen_text_case, genome_len: 320, quick: 500_000, thorough: 10_000_000 },
                 check: text_case,
                 configs: Configs::Both,
-                required: &["accepted", "accepted_special", "ambiguity_reported", "refused_by_position", "refused_by_syntax", "short_capture_text"],
+                required: &["accepted", "accepted_special", "ambiguity_reported", "refused_by_position", "refused_by_syntax", "short_capture_text", "castling_text", "castling_text_refused_by_position"],
                 regressions: &[
                     r#"{"fen":"8/8/8/K2Pp2r/8/8/8/7k w - e6 0 1","src":"regression_D1","texts":["de","dxe6","d5e6"]}"#,
                     r#"{"fen":"rnbqkbnr/pppppppp/8/8/8/8/PPPPPPPP/RNBQKBNR w KQkq - 0 1","src":"regression_D2","texts":["N","R+","Nx","Q#","€","N€","aé4","e2eé"]}"#,
